@@ -19,10 +19,10 @@ def run(ctx):
     def post(P_, J, runs):
         ctx.cov["relational"] = common.relational(ctx, P_, J, runs, clause="mode-dependent")
 
-    J, runs, cov = common.sem_check(ctx, P, variants, level="model_checking", post=post, write=False)
+    J, runs, cov = common.sem_check(ctx, P, variants, level="exploration", post=post, write=False)
     cov["modes"] = ["unbuffered depth-first", "unbuffered rc_first", "%d seeded random orders (engine.rst)" % k]
     cov["relational_comparisons"] = ctx.cov.get("relational", 0)
-    ctx.write_evidence("model_checking", cov)
+    ctx.write_evidence("exploration", cov)
 
 
 def replay(ctx, path):
